@@ -576,6 +576,10 @@ void var_opt_union<T, A>::mark_moving_gadget_coercer(var_opt_sketch<T, A>& sk) c
   sk.h_ = result_h;
   sk.r_ = result_r;
   sk.total_wt_r_ = result_r_weight;
+
+  // the gadget was in exact mode, where H is kept in arrival order: the result is in estimation mode
+  // and its H region must be a heap, or later updates of the result read a wrong minimum
+  sk.convert_to_heap();
 }
 
 // this is basically a continuation of get_result(), but modifying the input gadget copy
